@@ -61,7 +61,7 @@ def example_task(t):
         if fn.endswith(".capy"):
             shutil.copy(os.path.join(src_dir, fn), os.path.join(bx.proj, fn))
     res = bx.compile(["build", name, "--mod-dir", bx.mods, "--no-exec"], boxmod.REFERENCE_WORLD,
-                     trace=True)
+                     trace=True, timeout=30)
     if res.trace:
         with open(os.path.join(traces_dir, "example-%s.trace" % name[:-5]), "w") as f:
             f.write(res.trace)
@@ -143,6 +143,7 @@ def main(tier, seed, replay_path=None):
                 pass
 
         # ---- part (b) -----------------------------------------------------------------
+        c20.COMPILE_TIMEOUT = 20
         results = c20.run_batch(common.sub_seed(seed, "c26-traces") & 0xFFFFFFFF, n_programs, k,
                                 traces_dir=traces_dir, deadline=t0 + (150 if tier == "quick" else 2400))
         examples = sorted(f for f in os.listdir(os.path.join(common.REPO, "examples")) if f.endswith(".capy"))
